@@ -2,13 +2,14 @@
 # usage: confirm_seed.sh <worktree> <seed-out-dir>/m<k> <demo-dest-relative-to-repo-root> <pkg patterns...>
 # Confirms, in a scratch worktree: (1) existing package tests pass with the patch, (2) demo fails with the patch, (3) demo passes without it.
 WT=$1; M=$2; DEST=$3; shift 3
-export GOFLAGS=-mod=mod GOPROXY=off
+export GOFLAGS=-mod=mod GOPROXY=off GOSUMDB=off GOTOOLCHAIN=local
+export PATH=/root/go/pkg/mod/golang.org/toolchain@v0.0.1-go1.26.2.linux-amd64/bin:$PATH
 cd $WT && git checkout -q -- . && git clean -fdq
 git apply $M/patch.diff || { echo "RESULT $M apply-failed"; exit 1; }
 DEMO=$(ls $M/*_test.go | head -1)
 RUN=$(grep -o 'func Test[A-Za-z0-9_]*' $DEMO | sed 's/func //' | paste -sd'|')
 cd $WT/go
-go test $* -count=1 -vet=off > $M/confirm_existing.log 2>&1; e1=$?
+go test $* -count=1 -vet=off -timeout 60m > $M/confirm_existing.log 2>&1; e1=$?
 cp $DEMO $WT/$DEST
 go test ./$(dirname ${DEST#go/})/ -count=1 -vet=off -run "^($RUN)\$" > $M/confirm_demo_with.log 2>&1; e2=$?
 cd $WT && git checkout -q -- . && cd go
